@@ -186,7 +186,7 @@ c16 = _simple('C16', rules_ttl.rule_c16,
               '(R-REFILE-ON-UPDATE), nothing else reorders it, so its head is the entry expiring first; R-PRUNE-TABLE: on every full '
               'new-key insert path the victim is the ttl head iff now >= deadline(head) (inclusive, own clock sample), else the LRU back.',
               ['std::multimap with std::less keeps begin() minimal ([associative.reqmts])', 'RI at entry'],
-              {'R-PRUNE-TABLE': 12, 'ORD-WITNESS': 2, 'R-REFILE-ON-UPDATE': 10})
+              {'R-PRUNE-TABLE': 8, 'ORD-WITNESS': 2, 'R-REFILE-ON-UPDATE': 10})
 c17 = _simple('C17', rules_ttl.rule_c17,
               'C17 (DESIGN.md 6.C17): R-CLEAN-LOOP (tlru/utlru: a loop that continues exactly when the cache is non-empty and the ttl head is '
               'expired (inclusive), removes exactly that head per iteration, and can only stop when empty or the head is live), ORD-WITNESS, '
@@ -194,7 +194,7 @@ c17 = _simple('C17', rules_ttl.rule_c17,
               'difference of the ttl structure read inside the critical section), and for ut_map/ut_set R-PURGE-FIRST / R-PURGE-SHAPE on every '
               'insert, erase, lookup and clean.',
               ['steady_clock is monotone', 'RI at entry'],
-              {'R-CLEAN-LOOP': 2, 'R-CLEAN-TALLY': 4, 'R-PURGE-SHAPE': 20, 'ORD-WITNESS': 10})
+              {'R-CLEAN-LOOP': 2, 'R-CLEAN-TALLY': 3, 'R-PURGE-SHAPE': 20, 'ORD-WITNESS': 10})
 
 c10 = _simple('C10', lambda an, res: rules_pos.rule_order(an, res, 'C10', ['lru_cache', 'tlru_cache', 'utlru_cache']),
               'C10 (DESIGN.md 6.C10): list-position postconditions on every path of insert/find/erase (single and range forms) of lru, tlru, utlru: '
@@ -209,13 +209,13 @@ c12 = _simple('C12', lambda an, res: rules_pos.rule_order(an, res, 'C12', ['fifo
               'holds one), update and lookups move nothing, erase parks the freed node at the FRONT and unbinds it, so unbound nodes form the '
               'prefix the next inserts recycle and bound nodes stay in insertion order.',
               ['[list.ops] splice semantics', 'RI at entry (unbound nodes form a prefix)'],
-              {'R-USE-POS': 10, 'R-BIND-POS': 4, 'R-REMOVE-POS': 4, 'R-VICTIM': 2, 'R-FIFO-UNBIND': 3})
+              {'R-USE-POS': 10, 'R-BIND-POS': 3, 'R-REMOVE-POS': 3, 'R-VICTIM': 2, 'R-FIFO-UNBIND': 3})
 c13 = _simple('C13', lambda an, res: rules_pos.rule_order(an, res, 'C13', ['mru_cache']),
               'C13 (DESIGN.md 6.C13): mru list positions on every path: an update or non-peek hit ends with the entry at LAST_USED (just before '
               'the partition), a new entry is claimed at the partition and so ends LAST_USED, the victim is back() under size >= capacity '
               '(= LAST_USED = most recently used), removed nodes end FIRST_FREE, nothing else moves.',
               ['[list.ops] splice semantics', 'RI at entry'],
-              {'R-USE-POS': 12, 'R-BIND-POS': 4, 'R-REMOVE-POS': 4, 'R-VICTIM': 2})
+              {'R-USE-POS': 8, 'R-BIND-POS': 3, 'R-REMOVE-POS': 2, 'R-VICTIM': 2})
 
 c11 = _simple('C11', lambda an, res: rules_policy.rule_counts(an, res, 'C11'),
               'C11 (DESIGN.md 6.C11), lfu_cache and lfuda_cache: R-COUNT-ALG on every path (a new entry is filed with count 1; a use reads '
@@ -224,7 +224,7 @@ c11 = _simple('C11', lambda an, res: rules_policy.rule_counts(an, res, 'C11'),
               '(the victim is begin() of a multimap<size_t,...> with the default order), R-COUNT-REPORT (find_with_use_count returns the '
               'count after the access, or the stored count when peeking).',
               ['[associative.reqmts]: begin() of a less-ordered multimap is a minimum', 'RI at entry'],
-              {'R-COUNT-ALG': 60, 'R-VICTIM-MIN': 8, 'R-COUNT-REPORT': 4})
+              {'R-COUNT-ALG': 40, 'R-VICTIM-MIN': 4, 'R-COUNT-REPORT': 3})
 c14 = _simple('C14', rules_policy.rule_c14,
               'C14 (DESIGN.md 6.C14), lfuda_cache: C11\'s count algebra; R-STAMP (every use / insert stamps the entry with the call\'s clock '
               'sample, nothing else does); R-USE-POS / R-BIND-POS (a stamped entry ends at the young end = LAST_USED of the age list, so the '
@@ -234,7 +234,7 @@ c14 = _simple('C14', rules_policy.rule_c14,
               'R-AGE-BEFORE-VICTIM (a full insert ages first and evicts the minimum read afterwards). Declined: exactness of the float '
               'product for counts above 2^24.',
               ['steady_clock monotone', 'RI at entry (age list ordered by stamp)', 'float rounding of count*ratio not decided'],
-              {'R-AGE-LOOP': 3, 'R-STAMP': 30, 'R-AGE-TALLY': 1, 'R-AGE-BEFORE-VICTIM': 4, 'R-USE-POS': 10})
+              {'R-AGE-LOOP': 2, 'R-STAMP': 20, 'R-AGE-TALLY': 1, 'R-AGE-BEFORE-VICTIM': 2, 'R-USE-POS': 10})
 c15 = _simple('C15', rules_policy.rule_c15,
               'C15 (DESIGN.md 6.C15), rr_cache: R-RNG-ENGINE (member mt19937 seeded from random_device), R-RNG-BOUNDS (on every evicting insert '
               'path exactly one draw from uniform_int_distribution<size_t>{0, size-1} on the member engine, under size >= capacity >= 1, the '
@@ -242,7 +242,7 @@ c15 = _simple('C15', rules_policy.rule_c15,
               'R-PERM-BACKPTR (every open-list write is matched by a refresh of the moved element\'s stored position unless the position is '
               'freed). The statistical spread of mt19937 / uniform_int_distribution is trusted (libstdc++), not decided.',
               ['libstdc++ uniform_int_distribution covers [a,b] uniformly', 'RI at entry'],
-              {'R-RNG-BOUNDS': 4, 'R-PERM-BACKPTR': 8, 'R-RNG-ENGINE': 1})
+              {'R-RNG-BOUNDS': 2, 'R-PERM-BACKPTR': 6, 'R-RNG-ENGINE': 1})
 
 c20 = _simple('C20', rules_misc.rule_c20,
               'C20 (DESIGN.md 6.C20): R-RESET-COMPLETE: for every component of abstract state that some non-constructor method writes (counter, '
